@@ -2,7 +2,7 @@
 
 (T) lean/DoitModel/Props/C05.lean: (a) no_dependent_runs (serial + parallel, every edge kind, transitive, with/without
     --continue), (b) not_recorded (M1 part: every failure report is preceded by remove_success and followed by no
-    save_success), (c) continue_complete (serial; full statement kept as a def), (d) serial_stops, pinned counterexample.
+    save_success), (c) continue_complete (serial + parallel, full statement), (d) serial_stops, pinned counterexample.
 (K) the real doit runs generated DAG cases in a THREE-RUN history on one dependency DB (json / dbm / sqlite3):
       A  warm-up: every task of the selection's closure executes successfully (so that failures in B hit tasks that
          HAVE a success record), optional;
@@ -58,20 +58,29 @@ META = {
                   'error, unmet dependency, dependency error incl. "cannot be saved"), no task depending on it through '
                   'task_dep / target->file_dep / result_dep / calc_dep / delivered calc results / setup / getargs, '
                   'transitively, is ever selected or started; every failure report goes with remove_success and is '
-                  'never followed by save_success for that task; --continue never stops the run and (serial) every '
-                  'closure member is reported exactly once; the serial runner without --continue starts nothing after '
+                  'never followed by save_success for that task; --continue never stops the run and, for every runner, '
+                  'every closure member is reported exactly once at the end of the run (`unmet` only below a failed '
+                  'task); the serial runner without --continue starts nothing after '
                   'the first failure.  Tied to doit on every run by trace acceptance of real failing runs and by '
                   'observing DB content and the following run on json, dbm and sqlite3.',
-    'level_note': 'partial_theorems: C05_continue_complete is proved at full strength for the serial runner '
-                  '(C05_continue_complete_serial: every closure member gets exactly one terminal report, the run is never '
-                  'cut short, `unmet` only below a failed task); for the parallel runners only '
-                  'C05_continue_complete_partial (never stops; `unmet` only below a failed task) -- the missing part '
-                  '("no closure member left unprocessed by the parallel main loop") is the def '
-                  'C05_continue_complete_full and is monitored on every trace.  Clause (b) is proved at the M1 level '
+    'level_note': 'C05_continue_complete is proved at full strength for every runner '
+                  '(C05_continue_complete_serial, C05_continue_complete_parallel, C05_continue_complete: with '
+                  '--continue, when the run ends without internal error, every closure member has exactly one terminal '
+                  'report, and `unmet` only below a task with a failure report; the parallel half rests on the '
+                  'free_proc/proc_count accounting invariant of Proofs/RunAcct.lean).  '
+                  'Clause (b) is proved at the M1 level '
                   '(remove_success at every failure report, no later save); that an absent record means "not '
                   'up-to-date next run" is OBSERVED on the real code by the third run (no M2 status model exists yet) '
                   '-- monitor C05_reexecuted is a Python predicate; the other four monitors are Lean predicates '
-                  '(driver; three of them proved to hold on every model trace) cross-checked in Python.',
+                  '(driver) cross-checked in Python, all four proved sound on model traces: no_dependent_runs, '
+                  'not_recorded, serial_stops and continue_complete '
+                  '(C05_monitor_continue_complete_serial/_parallel/_exit) on the trace of every reachable state '
+                  '(continue_complete: for every bound nTasks above all task names -- namesBelow -- and every exit '
+                  'code that is <= 2 only without internal error; its guard is false before the end of the run: '
+                  'C05_complete_means_halted) -- '
+                  'including that the closure the monitor computes from the trace, which is larger than the '
+                  'model closure RunCl (setup-tasks of tasks reported unmet/ignored in the second select_task '
+                  'pass), is fully processed, and that its nTasks-round fixed-point iterations are complete.',
     'rule': 'runlib DAG generator (3-8 tasks, all edge kinds, groups, shared deps, calc deliveries, up-to-date and '
             'ignored tasks) with failure-heavy oracle: outcome failed/error/saveerr x how return/raise/object, status '
             'error (missing file_dep); backend json|dbm|sqlite3; warm-up run or not; runner serial | thread k=1..4 x '
